@@ -34,7 +34,7 @@ var commonReal = []string{
 var commonStubbed = []string{
 	"callbacks of rand/time.now/sleep (3 deterministic Go functions; registry entries incl. DontCache/ArgTypes stay real)",
 	"wall-clock timer of context.WithTimeout (superseded by SimContext via hook H2; MaxDuration=0)",
-	"object.FreeMemory's runtime reading, only while a memory fault is armed (hook H3)",
+	"object.FreeMemory's runtime reading (hook H3): a constant 256 MiB virtual budget, or the armed memory fault's value",
 	"repl.Interactive terminal loop (needs a tty; not driven)",
 }
 
@@ -135,4 +135,18 @@ func trunc(s string, n int) string {
 		return s[:n] + "…"
 	}
 	return s
+}
+
+// AddAny adds hand-written statements keeping them whatever their outcome class on the reference
+// (used for inputs whose failure is intended); only a tick-budget hit rejects.
+func (b *baseGen) AddAny(stmts []string) bool {
+	res := b.ref.Input(strings.Join(stmts, "\n"), nil)
+	if !res.BudgetHit {
+		b.Inputs = append(b.Inputs, stmts)
+		b.Ticks = append(b.Ticks, res.Ticks)
+		return true
+	}
+	b.Rejects++
+	b.rebuild()
+	return false
 }
